@@ -183,6 +183,8 @@ def find_index_for_time_point(
             shot.trajectory, lambda e: e.time - time >= 0
         )
     else:
+        if not shot.trajectory:
+            return -1
         index = find_nearest_index_satisfying_monotonic_condition(
             shot.trajectory, time, lambda e: e.time
         )
